@@ -403,12 +403,12 @@ View == <<ci, st, bad>>
 
 C05 == Inv_C05(bad)
 TypeOK == /\ st.ph \in Phases /\ st.nh \in 0..1 /\ bad \subseteq (CommitRules \cup SetupRules)
-\* the model never refuses what the reference allows for another reason than the listed rules,
-\* and the good base cases go through: vacuity guards of the matrix itself
-SoleRules == {r \in CommitRules \cup SetupRules :
-                \E i \in 1..NCases : LET c == CaseSeq[i] IN
-                    c.pol.filter = Strict /\ CaseBroken(c) = {r}}
-Accepting == {i \in 1..NCases : CaseBroken(CaseSeq[i]) = {}}
-ASSUME PrintT(<<"CP_MATRIX", NCases, Cardinality(SoleRules), Cardinality(Accepting),
-               (CommitRules \cup SetupRules) \ SoleRules>>)
+\* vacuity guards of the matrix itself: every rule is the sole broken rule of some case under a
+\* strict filter, and there are cases that break nothing
+MatrixStats ==
+  LET B == TLCEval([i \in 1..NCases |-> CaseBroken(CaseSeq[i])])
+      sole == UNION {B[i] : i \in {j \in 1..NCases : Cardinality(B[j]) = 1 /\ CaseSeq[j].pol.filter = Strict}} IN
+  <<"CP_MATRIX", NCases, Cardinality(sole), Cardinality({i \in 1..NCases : B[i] = {}}),
+    (CommitRules \cup SetupRules) \ sole>>
+ASSUME PrintT(MatrixStats)
 =============================================================================
